@@ -276,12 +276,35 @@ fn dec_status(code: usize) -> Option<DecModeStatus> {
     })
 }
 
+/// modifier set from its bits, put together from the named constants (not through
+/// `KeyMod::from_bits`, whose mask is part of what is being checked)
+fn key_mods(bits: u32) -> KeyMod {
+    let named = [
+        (1, KeyMod::SHIFT),
+        (2, KeyMod::ALT),
+        (4, KeyMod::CTRL),
+        (8, KeyMod::SUPER),
+        (16, KeyMod::HYPER),
+        (32, KeyMod::META),
+        (64, KeyMod::CAPSLOCK),
+        (128, KeyMod::NUMLOCK),
+        (256, KeyMod::PRESS),
+    ];
+    let mut mods = KeyMod::EMPTY;
+    for (bit, flag) in named {
+        if bits & bit != 0 {
+            mods = mods | flag;
+        }
+    }
+    mods
+}
+
 pub fn to_event(ev: &Ev) -> Option<TerminalEvent> {
     Some(match ev {
-        Ev::Key { name, mods } => TerminalEvent::Key(Key::new(key_name(name)?, KeyMod::from_bits(*mods))),
+        Ev::Key { name, mods } => TerminalEvent::Key(Key::new(key_name(name)?, key_mods(*mods))),
         Ev::Mouse { name, mods, row, col } => TerminalEvent::Mouse(Mouse {
             name: key_name(&KName::Named(name.clone()))?,
-            mode: KeyMod::from_bits(*mods),
+            mode: key_mods(*mods),
             pos: Position::new(*row, *col),
         }),
         Ev::Cpr { row, col } => TerminalEvent::CursorPosition(Position::new(*row, *col)),
